@@ -152,6 +152,53 @@ def run(ctx, replay_case):
                                    "replay": {"history": [(p[0], p[1], p[2], p[3].hex()) for p in hist], "shape": "A,others,A",
                                               "others_needed": lo,
                                               "how": "decode the listed inputs in order in one process and compare the first and the last"}})
+    # rejected inputs are functions of their arguments too: the same malformed input must be reported the same way every time —
+    # same events, same error / warnings with the same details — whatever was decoded (and is still alive) in between.  Probes: size
+    # fields set to their maximum, so that one field overruns several open regions at once (seed C12g: the order in which the open
+    # regions are examined came from a set of objects hashed by address, so the region named by the error varied from decode to decode)
+    import decsuite as ds
+    probes = []
+    wfm = []
+    for cc in rnd.sample(M.ccs, 24 if ctx.tier == "quick" else 117):
+        c_ = M.command(cc, nsess=rnd.choice([1, 2]))
+        if c_:
+            wfm.append(ds.Case("Command", None, False, c_[1], "wf_cmd"))
+        r_ = M.response(cc, nsess=rnd.choice([1, 2]))
+        if r_:
+            wfm.append(ds.Case("Response", cc, False, r_[1], "wf_rsp"))
+    for c_ in wfm:
+        b_ = canon.impl_dec("S", c_.tname, c_.cc, c_.enc, c_.data)
+        if b_[-1].startswith("R done"):
+            fs = [f for f in ds.size_faults(c_, b_, L, rnd, ctx.tier) if f.meta["now"] == (1 << (8 * f.meta["width"])) - 1 and f.meta["width"] == 2]
+            probes += fs[:2]
+    keep_alive = []
+    nprobe = 0
+    for pr in (probes if ctx.tier != "quick" else probes[:40]):
+        for mode in "SW":
+            first = None
+            for rep in range(12 if ctx.tier == "quick" else 40):
+                # perturb the allocator: decode something else and keep a varying amount of it alive
+                o_ = rnd.choice(pool_enc + pool_plain)
+                keep_alive.append(drain(decode_events(o_)))
+                if len(keep_alive) > rnd.randrange(1, 40):
+                    del keep_alive[: rnd.randrange(1, len(keep_alive) + 1)]
+                lines = [l.split(" ", 2)[0] + " " + l.split(" ", 2)[2] if l[:2] in ("M ", "W ") else l
+                         for l in canon.impl_dec(mode, pr.tname, pr.cc, pr.enc, pr.data)]
+                nprobe += 1
+                if first is None:
+                    first = lines
+                elif lines != first:
+                    failures += 1
+                    k_ = next((i for i, (x_, y_) in enumerate(zip(first, lines)) if x_ != y_), min(len(first), len(lines)))
+                    ctx.violations.append({"kind": "concrete", "signature": "history:rejected-input-reported-differently",
+                                           "what": f"decode #{rep + 1} of the same rejected input ({'strict' if mode == 'S' else 'warn'} mode) reports it differently from decode #1: "
+                                                   f"'{(lines[k_] if k_ < len(lines) else 'end')[:160]}' vs '{(first[k_] if k_ < len(first) else 'end')[:160]}'",
+                                           "replay": {**pr.replay(mode), "repetitions": rep + 1,
+                                                      "how": "decode the input repeatedly in one process, decoding other messages and keeping their results alive in between"}})
+                    break
+            if failures > 3:
+                break
+    shapes["rejected input repeated (decodes)"] = nprobe
     for h in range(nh):
         kind = rnd.choice(["ABA", "ABA", "ABCA", "ABAB", "AxA", "interleaved2", "interleaved3", "stream",
                            "A,failed,A", "A,failed,A", "A,abandoned,A", "S,failed,S"])
